@@ -304,7 +304,12 @@ func genServerScript(rt *rapid.T) scriptCase {
 	case "upgrade-version-other":
 		u.WriteString(caseVariant(rt, "Upgrade") + ": socketace/9.9.9" + nl)
 	default:
-		u.WriteString(caseVariant(rt, "Upgrade") + ": socketace/" + version.ProtocolVersion + nl)
+		token := "socketace/" + version.ProtocolVersion
+		if mutation == "no-common-version" || mutation == "no-version-header" {
+			// a peer that was told "no common version" and goes on regardless may ask for anything it likes
+			token = []string{token, token, "socketace/", "socketace", "socketace/9.9.9", "socketace/ "}[rapid.IntRange(0, 5).Draw(rt, "tokenAfterConflict")]
+		}
+		u.WriteString(caseVariant(rt, "Upgrade") + ": " + token + nl)
 	}
 	switch mutation {
 	case "connection-missing":
